@@ -111,6 +111,8 @@ func (d *decoder) decodeCompactBytes(v value) {
 func (d *decoder) decodeArray(v value, elemType reflect.Type, decodeElem decodeFunc) {
 	if n := d.readInt32(); n < 0 {
 		v.setArray(array{})
+	} else if !d.checkArrayLength(uint64(n)) {
+		v.setArray(array{})
 	} else {
 		a := makeArray(elemType, int(n))
 		for i := 0; i < int(n) && d.remain > 0; i++ {
@@ -123,6 +125,8 @@ func (d *decoder) decodeArray(v value, elemType reflect.Type, decodeElem decodeF
 func (d *decoder) decodeCompactArray(v value, elemType reflect.Type, decodeElem decodeFunc) {
 	if n := d.readUnsignedVarInt(); n < 1 {
 		v.setArray(array{})
+	} else if !d.checkArrayLength(n - 1) {
+		v.setArray(array{})
 	} else {
 		a := makeArray(elemType, int(n-1))
 		for i := 0; i < int(n-1) && d.remain > 0; i++ {
@@ -130,6 +134,17 @@ func (d *decoder) decodeCompactArray(v value, elemType reflect.Type, decodeElem 
 		}
 		v.setArray(a)
 	}
+}
+
+// checkArrayLength reports whether an array of n elements can be held by the
+// rest of the message. Every element occupies at least one byte, a greater
+// length is malformed and must not size an allocation.
+func (d *decoder) checkArrayLength(n uint64) bool {
+	if d.remain < 0 || n > uint64(d.remain) {
+		d.setError(io.ErrUnexpectedEOF)
+		return false
+	}
+	return true
 }
 
 func (d *decoder) discardAll() {
@@ -154,6 +169,12 @@ func (d *decoder) discard(n int) {
 }
 
 func (d *decoder) read(n int) []byte {
+	if n < 0 || n > d.remain {
+		// The length prefix announces more bytes than the message holds;
+		// fail before allocating a buffer whose size was chosen by the peer.
+		d.setError(io.ErrUnexpectedEOF)
+		return nil
+	}
 	b := make([]byte, n)
 	n, err := io.ReadFull(d, b)
 	b = b[:n]
